@@ -112,7 +112,7 @@ def run_doc(args):
         return [('cannot load %s: %r' % (fname, e), {})], hist
     bad += scan(m, fname + ' as loaded')
     for j in range(rng.randint(2, 4)):
-        kind = rng.choice(['convert', 'singularity', 'edit', 'fix', 'foreign'])
+        kind = rng.choice(['convert', 'singularity', 'edit', 'fix', 'foreign', 'mixfix'])
         if j == 0 and forced:
             kind = forced
         hist.append(kind)
@@ -145,6 +145,20 @@ def run_doc(args):
                 if fq is not None:
                     v = m.add_variable('c18$foreign%d' % j, 'dimensionless')
                     m.add_equation(sympy.Eq(v, fq))
+            elif kind == 'mixfix':
+                # an equation that mixes scales goes through a unit-fix pass: the conversion factor it plants is a number
+                # of the model like any other (and a second pass over the result is a no-op, not an error)
+                some = rng.choice(list(m.variables()))
+                uname = 'c18_mix%d' % j
+                if not m.units.is_defined(uname):
+                    m.units.add_unit(uname, '%s * %s' % (m.units.format(some.units), rng.choice(['1000', '0.001', '60'])))
+                y = m.add_variable('c18$mixy%d' % j, m.units.get_unit(uname), initial_value=1.0)
+                z = m.add_variable('c18$mixz%d' % j, some.units)
+                new = m.units.convert_expression_recursively(sympy.Eq(z, some + y), None)
+                m.add_equation(new)
+                again = m.units.convert_expression_recursively(new, None)
+                if again is not new:
+                    bad.append(('%s: a second unit-fix pass over %s changes it again' % (fname, new), {'where': 'mixfix'}))
             elif kind == 'edit':
                 v = m.add_variable('c18$extra%d' % j, 'dimensionless')
                 some = rng.choice(list(m.variables()))
@@ -244,7 +258,7 @@ def run(ctx):
     ctx.sample({'generated_case_convs': cases[0]['convs']})
     docs = DOCS if ctx.tier == 'thorough' else DOCS[:7]
     dargs = [(f, ctx.seed * 100 + k) for f in docs for k in range(3 if ctx.tier == 'quick' else 25)]
-    dargs += [(f, ctx.seed * 100 + 50 + k, kind) for f in docs for k, kind in enumerate(['singularity', 'convert', 'fix'])]
+    dargs += [(f, ctx.seed * 100 + 50 + k, kind) for f in docs for k, kind in enumerate(['singularity', 'convert', 'fix', 'mixfix'])]
     for a, (bad, hist) in zip(dargs, vlib.pmap(run_doc, dargs)):
         ctx.count(case_key=a, nontrivial=bool(hist), kind='doc')
         for h in hist:
